@@ -16,6 +16,7 @@ import (
 	pb "google.golang.org/protobuf/proto"
 
 	"github.com/oxia-db/oxia/common/concurrent"
+	"github.com/oxia-db/oxia/common/vhook"
 	"github.com/oxia-db/oxia/coordinator/model"
 	"github.com/oxia-db/oxia/proto"
 
@@ -312,14 +313,6 @@ func (m *mon) poll() {
 		ackedBefore, had := m.maxAcked[n.Name]
 		ep := m.epoch[n.Name]
 		m.mu.Unlock()
-		// what a node has applied is committed, whatever role the node has now (a fenced ex-leader still shows it)
-		if a := n.AppliedOffset(); a >= 0 {
-			m.mu.Lock()
-			if a > m.maxCommit {
-				m.maxCommit = a
-			}
-			m.mu.Unlock()
-		}
 		st, err := n.GetStatus()
 		if err != nil {
 			continue
@@ -585,6 +578,21 @@ func newSched(prop string, r *core.R, rng *rand.Rand, silentMon bool) (*sched, f
 	m.silent = silentMon
 	h.Observe(m.observe)
 	h.AfterExec = m.afterExec
+	// every advance of a leader's commit offset, at the moment it happens (status polls lag by up to a millisecond
+	// and a fenced ex-leader no longer reports it). Reading the databases instead is not an option: a read that
+	// races with a close panics inside Pebble with its locks held.
+	vhook.Clear()
+	vhook.Set("qat.commit", func(_ string, args ...any) {
+		if len(args) >= 2 {
+			if v, ok := args[1].(int64); ok {
+				m.mu.Lock()
+				if v > m.maxCommit {
+					m.maxCommit = v
+				}
+				m.mu.Unlock()
+			}
+		}
+	})
 	s := &sched{prop: prop, r: r, rng: rng, c: c, h: h, m: m, removedEver: map[string]bool{}, acked: map[string]string{}}
 	s.level = []int{0, 20, 50, 100}[rng.IntN(4)]
 	h.SetFaultLevel(s.level)
@@ -605,6 +613,7 @@ func newSched(prop string, r *core.R, rng *rand.Rand, silentMon bool) (*sched, f
 	}()
 	s.inc = h.Start()
 	cleanup := func() {
+		vhook.Clear()
 		s.over.Store(true)
 		h.CloseAll()
 		close(stopPoll)
